@@ -9,6 +9,8 @@ import numpy as np
 
 import finam as fm
 
+from ..fmutil import limited
+
 START = dt.datetime(2000, 1, 1)
 
 
@@ -108,12 +110,12 @@ def run_special(case, order):
             else:
                 gen_c.outputs[lk[0]] >> lk[1].inputs["In"]
         if case["shape"] == "autostart":
-            comp.connect()
+            limited(30, comp.connect)
             series["time_frame"] = [comp._time_frame[0].isoformat() if comp._time_frame[0] else None]
             series["published_at_connect"] = [[t.isoformat() for t, _d in c.outputs["Out"].data] for c in comps[:2]]
-            comp.run(end_time=START + dt.timedelta(days=case["days"]))
+            limited(30, comp.run, end_time=START + dt.timedelta(days=case["days"]))
         else:
-            comp.run(start_time=START, end_time=START + dt.timedelta(days=case["days"]))
+            limited(30, comp.run, start_time=START, end_time=START + dt.timedelta(days=case["days"]))
     except Exception as e:  # noqa
         res["error"] = type(e).__name__
         res["msg"] = str(e)[:200]
@@ -165,7 +167,7 @@ def run_order(case, order):
         comp = fm.Composition(listed, log_level="ERROR")
         for a, b in zip(comps, comps[1:]):
             a.outputs["Out"] >> b.inputs["In"]
-        comp.run(start_time=START, end_time=START + dt.timedelta(days=case["days"]))
+        limited(30, comp.run, start_time=START, end_time=START + dt.timedelta(days=case["days"]))
     except Exception as e:  # noqa
         res["error"] = type(e).__name__
         res["msg"] = str(e)[:200]
